@@ -26,7 +26,14 @@ def int_of_str(I, s, base=10):
     plain = is_digits(t)
     neg = z3.And(z3.PrefixOf(z3.StringVal("-"), t), is_digits(z3.SubString(t, 1, z3.Length(t) - 1)))
     if I.path.branch(plain):
-        return norm_int(z3.StrToInt(t))
+        canon = z3.InRe(t, z3.Union(z3.Re("0"), z3.Concat(z3.Range("1", "9"), z3.Star(DIGITS))))
+        I.path.fact(z3.Implies(canon, z3.IntToStr(z3.StrToInt(t)) == t),
+                    "decimal bijection: str(int(s)) == s for canonical numerals (assumed; cross-checked natively)")
+        r = norm_int(z3.StrToInt(t))
+        if is_sym_int(r):
+            I.ghost.setdefault("nonneg", set()).add(r.get_id())
+            I.path.fact(r >= 0, "int() of a digit string is non-negative")
+        return r
     if I.path.branch(neg):
         return norm_int(-z3.StrToInt(z3.SubString(t, 1, z3.Length(t) - 1)))
     # strings int() may still accept: +N, whitespace-padded, underscores, unicode digits
@@ -189,4 +196,139 @@ def str_method(I, s, name):
 
 
 def register(t):
-    pass
+    import re
+
+    def mk(mode):
+        def f(I, a, k):
+            pat, subj = a[0], a[1]
+            if isinstance(pat, SStr):
+                raise Undecided("symbolic regex pattern")
+            flags = a[2] if len(a) > 2 else k.get("flags", 0)
+            return re_exec(I, re.compile(pat, flags), subj, mode)
+        return f
+    t[re.match] = mk("match")
+    t[re.search] = mk("search")
+    t[re.fullmatch] = mk("fullmatch")
+
+
+# ------------------------------------------------------------------ re
+
+class MatchObj(object):
+    def __init__(self, whole, groups):
+        self.whole = whole
+        self.groups = groups      # {index: SStr}
+
+
+def re_exec(I, pat, s, mode):
+    import re
+    from . import regex as R
+    if isinstance(s, (bytes, str)):
+        m = getattr(pat, mode)(s)
+        if m is None:
+            return None
+        isb = isinstance(s, bytes)
+        mo = MatchObj(m.group(0), {i + 1: g for i, g in enumerate(m.groups())})
+        mo.end_idx = m.end()
+        return mo
+    if not isinstance(s, SStr):
+        raise Undecided("regex on %r" % (s,))
+    if isinstance(pat.pattern, bytes) != s.is_bytes:
+        raise PyRaise(TypeError("cannot use a bytes pattern on a string-like object"), TypeError)
+    ascii_only = bool(I.cfg.get("ascii_only_strings"))
+    if I.cfg.get("regex_abstract"):
+        # data-flow mode: the match succeeds or not (free choice) and the groups are unconstrained strings;
+        # what the pattern accepts is decided separately by regular-language obligations
+        if not I.path.branch(z3.Bool(fresh_name("regex_matches"))):
+            return None
+        mo = MatchObj(s, {i + 1: SStr(z3.String("G%d" % (i + 1)), s.is_bytes) for i in range(pat.groups)})
+        I.ghost.setdefault("regex_calls", []).append((pat, s, mo))
+        return mo
+    L, tr = R.search_language(pat.pattern, pat.flags, ascii_only, mode)
+    if not I.path.branch(z3.InRe(s.term, L)):
+        return None
+    tr, start, parts, end = R.top_level_parts(pat.pattern, pat.flags, ascii_only)
+    if not (start or mode in ("match", "fullmatch")):
+        if pat.groups == 0:
+            return MatchObj(s, {})
+        raise Undecided("unanchored search with capture groups")
+    isb = s.is_bytes
+    pieces, meta = [], []
+    groups = {}
+    for p in parts:
+        if p[0] == "lit":
+            pieces.append(z3.StringVal(p[1]))
+            meta.append(("lit", p[1]))
+        else:
+            g = z3.String(fresh_name("grp"))
+            rx, cs, fl = (p[2], p[3], p[4]) if p[0] == "group" else (p[1], p[2], p[3])
+            I.path.fact(z3.InRe(g, rx), "regex: captured group is in the group's language")
+            pieces.append(g)
+            meta.append(("var", cs, fl))
+            if p[0] == "group":
+                groups[p[1]] = SStr(g, isb)
+    rest = z3.String(fresh_name("rest"))
+    sig = R.sigma_star(tr.is_bytes)
+    if end == "none":
+        rest_re = sig if mode != "fullmatch" else R.empty_re()
+    else:
+        rest_re = R.end_regex(tr, end) if not (mode == "fullmatch" and end in ("dollar", "Z")) else R.empty_re()
+    I.path.fact(z3.InRe(rest, rest_re), "regex: text after the match")
+    if isinstance(end, tuple) and end[2] is not None:
+        # the trailing (:|$) style group: not used by callers; its value is the matched alternative
+        groups[end[2]] = Opaque("trailing-group")
+    I.path.fact(s.term == z3.Concat(*(pieces + [rest])) if pieces else s.term == rest, "regex: decomposition of the subject")
+    # greedy / unique decomposition: a variable-length part takes every character it can
+    for i, m in enumerate(meta):
+        if m[0] != "var" or m[2] is not None:
+            continue
+        cs = m[1]
+        if cs is None:
+            raise Undecided("variable-length regex part with unknown alphabet")
+        after = pieces[i + 1:] + [rest]
+        nxt = meta[i + 1] if i + 1 < len(meta) else None
+        if nxt is not None and nxt[0] == "lit":
+            if ord(nxt[1][0]) in cs:
+                raise Undecided("regex decomposition may be ambiguous (literal starts with a group character)")
+            continue
+        if nxt is not None:
+            raise Undecided("two adjacent variable-length regex parts")
+        tail = rest
+        notin = z3.Or(z3.Length(tail) == 0, z3.Not(z3.InRe(z3.SubString(tail, 0, 1), R.union([R.lit_re(chr(c)) for c in sorted(cs)]))))
+        I.path.fact(notin, "regex: greedy repetition takes every matching character")
+    mo = MatchObj(s, groups)
+    mo.end_idx = norm_int(z3.Length(s.term) - z3.Length(rest))
+    return mo
+
+
+def pattern_attr(I, pat, name):
+    if name in ("search", "match", "fullmatch"):
+        return MF("re." + name, lambda I_, a, k: re_exec(I, pat, a[0], name))
+    return NotImplemented
+
+
+def match_attr(I, m, name):
+    def group(I_, a, k):
+        if not a:
+            return m.whole
+        idx = a[0]
+        if idx == 0:
+            return m.whole
+        if idx not in m.groups:
+            raise PyRaise(IndexError("no such group"), IndexError)
+        return m.groups[idx]
+
+    def groups(I_, a, k):
+        return tuple(m.groups[i] for i in sorted(m.groups))
+    if name == "end":
+        def end(I_, a, k):
+            if a and a[0] != 0:
+                raise Undecided("match.end(group)")
+            if not hasattr(m, "end_idx"):
+                raise Undecided("match.end() of an unanchored match")
+            return m.end_idx
+        return MF("match.end", end)
+    if name == "group":
+        return MF("match.group", group)
+    if name == "groups":
+        return MF("match.groups", groups)
+    return NotImplemented
